@@ -43,6 +43,11 @@ MC_DAMP = [mc_timed(26, 2, 1, True, ("notif",)), mc_timed(14, 3, 1, True, ("noti
            mc_timed(26, 2, 1, True, ("notif",), inv="NeverAmnesia", reach=True)]
 
 
+def mc_live_in(workers=4, timeout=1200):
+    """MC_Live, inbound configuration: <>[]Established under fairness after a finite fault budget (liveness half of C11)."""
+    return ("MC_Live", open(os.path.join(C.ROOT, "spec", "cfg", "MC_Live_in.cfg")).read(), workers, timeout)
+
+
 def has_cb(res, name, n=1):
     return sum(1 for e in syscheck.events_of(res) if e["e"] == "cb" and e["n"] == name) >= n
 
@@ -149,9 +154,9 @@ prop("C11",
      specgen=(30, 1000),
      scripts=lambda tier, rnd: S.inbound_drop() + S.cease_subcodes() + (S.pacing() if tier == "thorough" else sample(S.pacing(), rnd, 70)),
      mc=lambda tier: [mc_pair(["openLo", "ka", "cease"], conns=1, msgs=3, dials=3), mc_timed(10, 1, 3, False, ("open3", "ka", "cease")),
-                      mc_timed(9, 2, 2, False, ("open3", "cease")), mc_timed(12, 2, 3, True, ("open3", "ka", "cease"))] if tier == "quick" else
+                      mc_timed(9, 2, 2, False, ("open3", "cease")), mc_timed(12, 2, 3, True, ("open3", "ka", "cease")), mc_live_in()] if tier == "quick" else
      [mc_pair(["openLo", "ka", "cease"], conns=2, msgs=2, dials=3), mc_timed(14, 2, 3, False, ("open3", "ka", "notif")),
-      mc_timed(12, 2, 3, True, ("open3", "ka", "cease")), mc_timed(12, 2, 2, False, ("open3", "cease"))],
+      mc_timed(12, 2, 3, True, ("open3", "ka", "cease")), mc_timed(12, 2, 2, False, ("open3", "cease")), mc_live_in()],
      nontrivial=lambda s, r: sum(1 for e in syscheck.events_of(r) if e["e"] == "dial") >= 2 or "passive" in s.get("tags", ()),
      rule="fault sequences over {refuse, EOF at state s, Cease, stall, reset} x (idle-hold, connect-retry) settings followed by a "
           "cooperative remote; dial attempts carry exact virtual timestamps; non-trivial = at least two dial attempts (or passive)")
